@@ -10,7 +10,9 @@ no case folding, no text conversion.  `Lemmas/MdnsA.lean` has the two basic fact
 
   1. restates them as the reviewer's question asks (`getKey_eq_iff`, `getKey_injective_of_WF`,
      `bucket_single_owner`, `bucket_owner_eq`), shows that a key built from a non-injective rendering
-     of the labels (e.g. their lossy text) does merge names (`keyVia_collides`, `keyVia_injective_iff`)
+     of the labels (e.g. their lossy text) does merge names (`keyVia_collides`; `keyVia_injective_iff`
+     is VACUOUS as stated — both sides are false for every such rendering — the meaningful, bounded
+     version is `keyVia_injective_iff_WF` in `Props/C15Audit.lean`)
      and that the bound 256 is needed even for names without empty labels;
   2. characterises the key-prefix relation: `getKey_prefix_iff` (∃ leading labels),
      `getKey_prefix_iff_drop` (computable form), `getKey_prefix_iff_eq_or_subdomain`,
@@ -84,8 +86,12 @@ theorem keyVia_collides {f : Label → Label} {l₁ l₂ : Label} (h : f l₁ = 
     keyVia f (l₁ :: n) = keyVia f (l₂ :: n) := by
   simp [keyVia, h]
 
-/-- … and nothing else can go wrong: for renderings that keep labels shorter than 256 bytes the key
-separates all names exactly when the rendering separates all labels. -/
+/-- for renderings that keep ALL labels shorter than 256 bytes the key separates all names exactly
+when the rendering separates all labels. CAUTION: vacuous — no rendering with all images shorter
+than 256 bytes is injective on all byte lists, so this is `False ↔ False`
+(`keyVia_injective_iff_vacuous` in `Props/C15Audit.lean`). The version restricted to the labels and
+names that exist (1..63 bytes, `Name.WF`), which `id` satisfies and `lossyLabel` does not, is
+`keyVia_injective_iff_WF` there. -/
 theorem keyVia_injective_iff {f : Label → Label} (hf : ∀ l, (f l).length < 256) :
     (∀ a b : Name, keyVia f a = keyVia f b → a = b) ↔ (∀ l₁ l₂, f l₁ = f l₂ → l₁ = l₂) := by
   have hok : ∀ n : Name, NameOK (n.map f) := by
